@@ -625,6 +625,15 @@ DIRECTED = [
     ("dict-key-after-splat-fn", "<%\ndef g():\n    return {**base, kf: 1}\n%>${g()}", {"base": {}, "kf": "k"}, True, "{'k': 1}", None),
     ("filter-args-sibling-comprehension", '<%!\ndef tg(l):\n    return lambda s: s + str(l)\n%>${"v" | n, tg([c for c in cs]), tg(c)}', {"cs": (1, 2), "c": "C"}, False, "v[1, 2]C", None),
     ("filter-args-sibling-walrus", '<%!\ndef tg(l):\n    return lambda s: s + str(l)\n%>${"v" | n, tg(sum(q for q in (1, 2))), tg(q), tg([w for w in (3,)]), tg(w)}', {"q": "Q", "w": "W"}, False, "v3Q[3]W", None),
+    # the parameters of a def are bound by the def: a filter call of that def which reads them demands nothing from the context
+    ("def-filter-reads-own-parameter", '<%!\ndef tg(l):\n    return lambda s: s + str(l)\n%><%def name="w(tag)" filter="tg(tag)">d</%def>${w("b")}', {}, True, "db", None),
+    ("nested-def-filter-reads-own-parameters", '<%!\ndef tg(l):\n    return lambda s: s + str(l)\n%><%def name="o()"><%def name="w(tag, *rest, sep=\'i\', **kw)" '
+                                               'filter="tg(tag), tg(sep), tg(len(rest) + len(kw))">d</%def>${w("b", 1, 2, k=3)}</%def>${o()}', {}, True, "dbi3", None),
+    ("buffered-def-filter-reads-own-default-parameter", '<%!\ndef tg(l):\n    return lambda s: s + str(l)\n%><%def name="w(tag=\'u\')" buffered="True" filter="tg(tag)">d</%def>${w()}', {}, True, "du", None),
+    ("def-filter-reads-parameter-and-context", '<%!\ndef tg(l):\n    return lambda s: s + str(l)\n%><%def name="w(tag)" filter="tg(tag + cx)">d</%def>${w("b")}', {"cx": "C"}, True, "dbC", None),
+    ("def-filter-reads-missing-name", '<%!\ndef tg(l):\n    return lambda s: s + str(l)\n%><%def name="w(tag)" filter="tg(missing)">d</%def>${w("b")}', {}, True, "NameError:missing", None),
+    ("def-in-call-filter-reads-own-parameter", '<%!\ndef tg(l):\n    return lambda s: s + str(l)\n%><%def name="c()">${caller.w("z")}</%def><%call expr="c()"><%def name="w(tag)" filter="tg(tag)">d</%def></%call>',
+     {}, True, "dz", None),
     ("def-filter-args-sibling-comprehension", '<%!\ndef tg(l):\n    return lambda s: s + str(l)\n%><%def name="fd()" filter="tg({k: 1 for k in ks}), tg(k)">d</%def>${fd()}', {"ks": ("a",), "k": "K"}, False, "d{'a': 1}K", None),
     ("default-kwsplat", '<%! D = {"sep": "-"} %><%def name="f(a=dict(**D))">${a}</%def>${f()}', {}, False, "{'sep': '-'}", None),
 ]
